@@ -1,71 +1,103 @@
 /-
 C12 — LDM behaves as a store of objects with registration gating and expiry.
 Property theorems only.  Implementation model: FlexModel/Ldm/Store.lean (the repaired code, with the two known
-findings as variants `areaFixed`, `gated`); reference map: FlexModel/Ldm/Spec.lean; lemmas: StoreLemmas.lean.
+findings as variants `areaFixed`, `gated`); reference map: FlexModel/Ldm/Spec.lean (independent of the implementation
+model; parameters: area rule, gating, reactive trigger); lemmas: StoreLemmas.lean.
 
-Shape: (1) refinement — for every history the answers of the implementation are the answers of the reference map;
-(2) the clauses of the property, proved of the reference map for every history (they carry over to the
-implementation's answers through (1)); (3) `_partial` / `_witness` for the two known findings.
+Shape:
+ 1. refinement — for every variant and EVERY history the answers of the implementation are the answers of the
+    reference map with the parameters that variant implements (`ldm_refines_map`, no side condition; instances
+    `_repaired` = the intended parameters, `_as_is` = the code today with the area rule it really applies);
+    `area_witness`, `gating_witness` for the two known findings;
+ 2. the clauses of the property, proved of the reference map for every history and all parameter values;
+ 3. `impl_*`: each clause carried over to the implementation model's own step / run / rows / registries / counter.
 -/
 import FlexModel.Ldm.StoreLemmas
 
 namespace Props.C12
 open FlexModel.Ldm Generated.Ldm
 
-/-- answers of the implementation to a history, read in the reference vocabulary -/
+/-- answers of the implementation to a history, read in the reference vocabulary (result codes kept) -/
 def answers (cfg : Cfg) (u m : Int) (ops : List Op) : List Spec.Out :=
-  List.zipWith Spec.absOut ops (run cfg (St.init u m) ops).2
+  List.zipWith absOut ops (run cfg (St.init u m) ops).2
 
-/-- answers of the reference map -/
-def refAnswers (u m : Int) (ops : List Op) : List Spec.Out := (Spec.run (Spec.St.init u m) ops).2
+/-- answers of the reference map with parameters `P` -/
+def refAnswers (P : Spec.Params) (u m : Int) (ops : List Spec.Op) : List Spec.Out :=
+  (Spec.run P (Spec.St.init u m) ops).2
 
-/-! ## 1. Refinement -/
+/-! ## 1. Refinement (no side condition) -/
 
-/-- For every history (any length, any ids, any clock advances) that stays inside `histSafe`, the implementation
-answers exactly like the reference map. `histSafe` only constrains what the two known findings are about. -/
-theorem ldm_refines_map (cfg : Cfg) (u m : Int) (ops : List Op) (hs : histSafe cfg (St.init u m) ops = true) :
-    answers cfg u m ops = refAnswers u m ops :=
-  (run_refines cfg ops _ _ (rel_init cfg u m) hs).2
+/-- **For every variant of the code, every pair of start clocks and EVERY history** (any length, any ids, objects
+anywhere - inside, on the border of, outside the area of maintenance -, updates / deletes by anybody, any clock
+advances, maintenance explicit and reactive) the implementation answers exactly like the reference map whose area
+rule, gating and reactive trigger are `specOf cfg`. -/
+theorem ldm_refines_map (cfg : Cfg) (u m : Int) (ops : List Op) :
+    answers cfg u m ops = refAnswers (specOf cfg) u m (ops.map toSpec) :=
+  (run_refines cfg ops _ _ (rel_init u m)).2
 
-/-- all `add` operations of a history place the object where the (repaired) area collection keeps it -/
-def addsKept (cfg : Cfg) (ops : List Op) : Prop :=
-  ∀ op ∈ ops, match op with
-    | .add _ _ loc _ _ => areaDeletes cfg.areaFixed cfg.area loc = false
-    | _ => True
+/-- the area of maintenance as EN 302 895 5.3.2 means it: inside the relevance distance and within the altitude band -/
+def inArea (a : Area) (l : Loc) : Bool :=
+  within a.relDist (sqDist a l) && decide ((l.alt - a.alt) * (l.alt - a.alt) < maxAltDiff)
 
-theorem histSafe_of_gated (cfg : Cfg) (hg : cfg.gated = true) (ops : List Op) :
-    ∀ s : St, addsKept cfg ops → histSafe cfg s ops = true := by
-  induction ops with
-  | nil => intro s _; rfl
-  | cons op ops ih =>
-    intro s h
-    simp only [histSafe, Bool.and_eq_true]
-    refine ⟨?_, ih _ (fun o ho => h o (List.mem_cons_of_mem _ ho))⟩
-    have h0 := h op (by simp)
-    cases op <;> simp_all [opSafe]
+/-- the parameters the property asks for: objects OUTSIDE the area of maintenance are discarded, update / delete are
+gated by the provider registration, reactive pass after >= 1 s -/
+def intended (a : Area) : Spec.Params :=
+  { drops := fun l => !inArea a l, gated := true, reactive := fun d => decide (d ≥ 1000) }
 
-/-- Full strength, for the repaired variant (registration checked on update/delete, area test the right way
-round): every history whose objects lie inside the area of maintenance. -/
-theorem ldm_refines_map_repaired (area : Area) (u m : Int) (ops : List Op)
-    (h : addsKept { area := area, areaFixed := true, gated := true } ops) :
-    answers { area := area, areaFixed := true, gated := true } u m ops = refAnswers u m ops :=
-  ldm_refines_map _ u m ops (histSafe_of_gated _ rfl ops _ h)
+/-- what the code as it is implements (C12-KF1: the area test is inverted and `^` is XOR, so objects INSIDE the area
+with a small altitude difference are discarded and objects outside are kept; C12-KF2: update / delete not gated) -/
+def asIs (a : Area) : Spec.Params :=
+  { drops := fun l => within a.relDist (sqDist a l) && decide (xor2 (l.alt - a.alt) < maxAltDiff), gated := false,
+    reactive := fun d => decide (d ≥ 1000) }
 
-/-- The code as it is (`areaFixed = false`, `gated = false`): the property outside the two known regions —
-no object is added inside the region the inverted area test deletes (C12-KF1), and update/delete are issued by
-applications that are registered providers at that moment (C12-KF2).  `histSafe` is exactly that condition. -/
-theorem ldm_refines_map_partial (area : Area) (u m : Int) (ops : List Op)
-    (hs : histSafe { area := area, areaFixed := false, gated := false } (St.init u m) ops = true) :
-    answers { area := area, areaFixed := false, gated := false } u m ops = refAnswers u m ops :=
-  ldm_refines_map _ u m ops hs
+/-- repaired variant: refines the intended reference, all histories -/
+theorem ldm_refines_map_repaired (area : Area) (u m : Int) (ops : List Op) :
+    answers { area := area, areaFixed := true, gated := true } u m ops = refAnswers (intended area) u m (ops.map toSpec) :=
+  ldm_refines_map _ u m ops
+
+/-- the code as it is: refines the reference with the area rule it really applies, ALL histories -/
+theorem ldm_refines_map_as_is (area : Area) (u m : Int) (ops : List Op) :
+    answers { area := area, areaFixed := false, gated := false } u m ops = refAnswers (asIs area) u m (ops.map toSpec) :=
+  ldm_refines_map _ u m ops
+
+/-- C12-KF1 is total on the area of maintenance: EVERY object inside the area (relevance distance and altitude band
+`Δalt² < 15`, i.e. |Δalt| ≤ 3) is discarded by the code as it is at the next maintenance pass.  (What the code as it
+is keeps: objects outside the relevance distance, and objects inside it whose altitude difference has
+`Δalt XOR 2 ≥ 15`, e.g. 13 or ≥ 16 - all of them outside the intended area.) -/
+theorem kf1_total_on_area (a : Area) (l : Loc) (h : inArea a l = true) : (asIs a).drops l = true := by
+  simp only [inArea, Bool.and_eq_true, decide_eq_true_eq] at h
+  simp only [asIs, h.1, Bool.true_and, decide_eq_true_eq]
+  have h2 := h.2
+  generalize l.alt - a.alt = d at h2 ⊢
+  have hb : -4 < d ∧ d < 4 := by
+    constructor
+    · apply Classical.byContradiction
+      intro hn
+      have h1 : (4 : Int) ≤ -d := by omega
+      have := Int.mul_le_mul h1 h1 (by decide) (by omega)
+      rw [Int.neg_mul_neg] at this
+      simp only [maxAltDiff] at h2
+      omega
+    · apply Classical.byContradiction
+      intro hn
+      have h1 : (4 : Int) ≤ d := by omega
+      have := Int.mul_le_mul h1 h1 (by decide) (by omega)
+      simp only [maxAltDiff] at h2
+      omega
+  have : d = -3 ∨ d = -2 ∨ d = -1 ∨ d = 0 ∨ d = 1 ∨ d = 2 ∨ d = 3 := by omega
+  rcases this with h | h | h | h | h | h | h <;> subst h <;> decide
 
 /-! ### witnesses of the two known findings -/
 
 def cfgAsIs : Cfg := { area := { lat := 415000000, lon := 21000000, alt := 0, relDist := 4 }, areaFixed := false, gated := false }
 def camObj : JVal := .dict (.cons "cam" (.dict (.cons "generationDeltaTime" (.int 1) .nil)) .nil)
+def camObj2 : JVal := .dict (.cons "cam" (.dict (.cons "generationDeltaTime" (.int 2) .nil)) .nil)
 def atLdm : Loc := { lat := 415000000, lon := 21000000, majC := 0, minC := 0, majO := 0, alt := 0, altC := 0,
                      radius := 0, relDist := 4, relDir := 0 }
 def farAway : Loc := { atLdm with lat := 416000000 }
+/-- inside the relevance distance (300 units away), 13 units above the LDM: kept by the code as it is
+(13 XOR 2 = 15), outside the intended area (altitude band |Δalt| ≤ 3) -/
+def nearKept : Loc := { atLdm with lat := 415000300, alt := 13 }
 def unfiltered (app : Nat) (types : List Nat) : Request :=
   { app := app, types := types, prio := none, orderBad := false, order := none, filterBad := false, filter := none }
 def listed : Spec.Out → Option (List Record)
@@ -76,15 +108,12 @@ def camRec (l : Loc) : Record := { appId := 2, timestamp := 627084805000, loc :=
 def areaWitness : List Op :=
   [.regProvider 2 [2], .regConsumer 2 [2], .add 2 627084805000 atLdm camObj 1000, .maintain, .request (unfiltered 2 [2])]
 
-/-- C12-KF1: an object added at the LDM's own position is gone after one maintenance run (code as is) … -/
+/-- C12-KF1: an object added at the LDM's own position is gone after one maintenance run (code as is), the intended
+rule keeps it, and the repaired area test keeps it -/
 theorem area_witness :
     (answers cfgAsIs 1700000000000 1000000 areaWitness).getLast?.bind listed = some []
-    ∧ (refAnswers 1700000000000 1000000 areaWitness).getLast?.bind listed = some [camRec atLdm] := by
-  decide
-
-/-- … while the repaired area test keeps it -/
-theorem area_witness_repaired :
-    (answers { cfgAsIs with areaFixed := true } 1700000000000 1000000 areaWitness).getLast?.bind listed = some [camRec atLdm] := by
+    ∧ (refAnswers (intended cfgAsIs.area) 1700000000000 1000000 (areaWitness.map toSpec)).getLast?.bind listed = some [camRec atLdm]
+    ∧ (answers { cfgAsIs with areaFixed := true } 1700000000000 1000000 areaWitness).getLast?.bind listed = some [camRec atLdm] := by
   decide
 
 def gatingWitness : List Op :=
@@ -94,129 +123,131 @@ def gatingWitness : List Op :=
 /-- C12-KF2: a delete issued by an application that is no longer a registered provider is carried out (code as is) -/
 theorem gating_witness :
     (answers cfgAsIs 1700000000000 1000000 gatingWitness).getLast?.bind listed = some []
-    ∧ (refAnswers 1700000000000 1000000 gatingWitness).getLast?.bind listed = some [camRec farAway]
     ∧ (answers { cfgAsIs with gated := true } 1700000000000 1000000 gatingWitness).getLast?.bind listed = some [camRec farAway] := by
   decide
 
-/-- non-vacuity of the refinement hypothesis: a history with add, update, delete, maintenance and requests
-inside `histSafe` for the code as it is -/
-example : histSafe cfgAsIs (St.init 1700000000000 1000000)
-    [.regProvider 2 [2], .regConsumer 2 [2], .add 2 627084805000 farAway camObj 1000, .update 2 0 camObj,
-     .advance 2000, .maintain, .request (unfiltered 2 [2]), .delete 2 0] = true := by decide
-
-/-! ## 2. The clauses of the property, for every history of the reference map
+/-! ## 2. The clauses of the property, for the reference map, every history, every value of the parameters
 
 `t` ranges over arbitrary reference states satisfying the invariant `Spec.Inv` (nothing stored at identifiers not
-yet handed out), which holds initially and after every history (`inv_reachable`).  Through `ldm_refines_map` the
-answers below are the answers of the implementation. -/
+yet handed out), which holds initially and after every history (`inv_reachable`).  Section 3 carries each clause over
+to the implementation model. -/
 
-theorem inv_reachable (u m : Int) (ops : List Op) : Spec.Inv (Spec.run (Spec.St.init u m) ops).1 := by
-  suffices h : ∀ t : Spec.St, Spec.Inv t → Spec.Inv (Spec.run t ops).1 from h _ (spec_inv_init u m)
-  induction ops with
-  | nil => intro t h; exact h
-  | cons op ops ih => intro t h; exact ih _ (spec_inv_step t op h)
+theorem inv_reachable (P : Spec.Params) (u m : Int) (ops : List Spec.Op) : Spec.Inv (Spec.run P (Spec.St.init u m) ops).1 :=
+  spec_inv_run P ops _ (spec_inv_init u m)
 
-/-- an unfiltered, unordered, valid request of a registered consumer is answered with exactly the stored objects of
-the requested types, in identifier order -/
-theorem request_lists_stored (t : Spec.St) (q : Request) (hc : t.cons q.app = true)
-    (hq : requestRefusal true q = none) (hf : q.filter = none) (ho : q.order = none) :
-    (Spec.step t (.request q)).2 = .req (.ok (typeSelect q.types (Spec.listing t))) := by
-  simp only [Spec.step, hc, hq, serviceQuery, dictSearch, hf, ho]
-  rfl
+/-- an unfiltered, unordered request of a registered consumer is either refused for a malformed field or answered with
+exactly the stored objects of the requested types, in identifier order -/
+theorem request_lists_stored (P : Spec.Params) (t : Spec.St) (q : Request) (hc : t.cons q.app = true)
+    (hq : Spec.refusal true q = none) (hf : q.filter = none) (ho : q.order = none) :
+    (Spec.step P t (.request q)).2 = .req (.ok ((Spec.listing t).filter (Spec.wanted q.types))) := by
+  simp only [Spec.step, hc, hq, Spec.answer, hf, ho]
 
-/-- an accepted add hands out the next identifier and stores the object as given (unless the reactive maintenance
-run of that very call already finds its validity lapsed) -/
-theorem add_stores (t : Spec.St) (app : Nat) (ts : Int) (loc : Loc) (obj : JVal) (validity : Int)
+/-- an accepted add hands out the next identifier and stores the object as given, unless the maintenance pass of that
+very call already finds its validity lapsed or its location outside what the area rule keeps -/
+theorem add_stores (P : Spec.Params) (t : Spec.St) (app : Nat) (ts : Int) (loc : Loc) (obj : JVal) (validity : Int)
     (hp : t.prov app = true) :
     let r : Record := { appId := app, timestamp := ts, loc := loc, obj := obj, validity := validity }
-    let t' := (Spec.step t (.add app ts loc obj validity)).1
-    (Spec.step t (.add app ts loc obj validity)).2 = .id t.next ∧ t'.next = t.next + 1 ∧
-      (t'.objs t.next = some r ∨ expired (nowIts t.utcMs) r = true) := by
+    let t' := (Spec.step P t (.add app ts loc obj validity)).1
+    (Spec.step P t (.add app ts loc obj validity)).2 = .id t.next ∧ t'.next = t.next + 1 ∧
+      (t'.objs t.next = some r ∨ Spec.lapsed (Spec.nowIts t.utcMs) r = true ∨ P.drops loc = true) := by
   simp only [Spec.step, hp, Bool.not_true, Bool.false_eq_true, if_false]
   split
   · refine ⟨rfl, rfl, ?_⟩
     simp only [Spec.collect, Spec.setAt, if_true]
-    by_cases e : expired (nowIts t.utcMs) { appId := app, timestamp := ts, loc := loc, obj := obj, validity := validity } = true
-    · exact Or.inr e
-    · left; simp [e]
+    cases e : Spec.lapsed (Spec.nowIts t.utcMs) { appId := app, timestamp := ts, loc := loc, obj := obj, validity := validity }
+    · cases e2 : P.drops loc
+      · left; simp
+      · right; right; rfl
+    · right; left; rfl
   · exact ⟨rfl, rfl, Or.inl (by simp [Spec.setAt])⟩
 
-/-- **added is returned until deleted or expired**: a stored object is returned, exactly as stored (application id,
-timestamp, location, content, validity), by every later unfiltered request of a registered consumer for its type,
-whatever happens in between (any number of operations on other objects, registrations, maintenance runs, clock
-advances), as long as no update/delete is aimed at it and its validity has not lapsed at the time of the request. -/
-theorem added_is_returned_until_deleted_or_expired (t : Spec.St) (i : Nat) (r : Record)
-    (hi : t.objs i = some r) (hlt : i < t.next) (ops : List Op) (hnt : ∀ op ∈ ops, op.targets i = false)
-    (q : Request) (hq : requestRefusal true q = none) (hf : q.filter = none) (ho : q.order = none)
-    (hty : typeSelected q.types r = true) (hc : (Spec.run t ops).1.cons q.app = true)
-    (hne : expired (nowIts (Spec.run t ops).1.utcMs) r = false) :
-    ∃ rs, (Spec.step (Spec.run t ops).1 (.request q)).2 = .req (.ok rs) ∧ r ∈ rs := by
-  refine ⟨_, request_lists_stored _ q hc hq hf ho, ?_⟩
-  simp only [typeSelect, List.mem_filter, hty, and_true]
-  exact (mem_listing _ r).mpr ⟨i, Nat.lt_of_lt_of_le hlt (by
-    clear hi hnt hne hc
-    induction ops generalizing t with
-    | nil => exact Nat.le_refl _
-    | cons op ops ih => exact Nat.le_trans (spec_step_next_mono t op) (ih _ (Nat.lt_of_lt_of_le hlt (spec_step_next_mono t op)))),
-    run_keeps ops t i r hi hlt hnt hne⟩
+/-- **added is returned until deleted or expired, a successful update replaces only the content** (history form):
+a stored object that the area rule keeps is returned by every later unfiltered request of a registered consumer for
+its type, whatever happens in between (any operations on other objects, REFUSED updates / deletes aimed at it,
+registrations, maintenance runs, clock advances), as long as no *successful* delete was aimed at it and its validity has
+not lapsed at the time of the request - with the application id, timestamp, location and validity it was stored with
+and the content of the last *successful* update aimed at it (`Spec.follow`). -/
+theorem added_is_returned_until_deleted_or_expired (P : Spec.Params) (t : Spec.St) (i : Nat) (r : Record)
+    (hi : t.objs i = some r) (hlt : i < t.next) (hk : P.drops r.loc = false) (ops : List Spec.Op)
+    (r' : Record) (hfo : Spec.follow i (some r) ops (Spec.run P t ops).2 = some r')
+    (q : Request) (hq : Spec.refusal true q = none) (hf : q.filter = none) (ho : q.order = none)
+    (hty : Spec.wanted q.types r' = true) (hc : (Spec.run P t ops).1.cons q.app = true)
+    (hne : Spec.lapsed (Spec.nowIts (Spec.run P t ops).1.utcMs) r = false) :
+    (∃ rs, (Spec.step P (Spec.run P t ops).1 (.request q)).2 = .req (.ok rs) ∧ r' ∈ rs) ∧
+      r'.appId = r.appId ∧ r'.timestamp = r.timestamp ∧ r'.loc = r.loc ∧ r'.validity = r.validity := by
+  have hst := run_follows P ops t i r hi hlt hk hne
+  rw [hfo] at hst
+  refine ⟨⟨_, request_lists_stored P _ q hc hq hf ho, ?_⟩, follow_keeps_meta i ops _ r r' hfo⟩
+  simp only [List.mem_filter, hty, and_true]
+  exact (mem_listing _ r').mpr ⟨i, Nat.lt_of_lt_of_le hlt (spec_run_next_mono P ops t), hst⟩
 
 /-- nothing else is returned: every object in an unfiltered answer is stored under some identifier and of a
 requested type -/
-theorem returned_is_stored (t : Spec.St) (q : Request) (hc : t.cons q.app = true)
-    (hq : requestRefusal true q = none) (hf : q.filter = none) (ho : q.order = none) (rs : List Record)
-    (h : (Spec.step t (.request q)).2 = .req (.ok rs)) (r : Record) (hr : r ∈ rs) :
-    typeSelected q.types r = true ∧ ∃ i, i < t.next ∧ t.objs i = some r := by
-  rw [request_lists_stored t q hc hq hf ho] at h
-  injection h with h; injection h with h; subst h
-  simp only [typeSelect, List.mem_filter] at hr
-  exact ⟨hr.2, (mem_listing t r).mp hr.1⟩
+theorem returned_is_stored (P : Spec.Params) (t : Spec.St) (q : Request) (hf : q.filter = none) (ho : q.order = none)
+    (rs : List Record) (h : (Spec.step P t (.request q)).2 = .req (.ok rs)) (r : Record) (hr : r ∈ rs) :
+    Spec.wanted q.types r = true ∧ ∃ i, i < t.next ∧ t.objs i = some r := by
+  simp only [Spec.step, Spec.answer, hf, ho] at h
+  split at h
+  · cases h
+  · injection h with h; injection h with h; subst h
+    simp only [List.mem_filter] at hr
+    exact ⟨hr.2, (mem_listing t r).mp hr.1⟩
 
-/-- **a successful update replaces only the content**: application id, timestamp, location and validity of the
-object stay, every other object, both registries and the identifier counter are unchanged -/
-theorem update_replaces_only_content (t : Spec.St) (app id : Nat) (obj : JVal)
-    (h : (Spec.step t (.update app id obj)).2 = .done) :
-    ∃ r, t.objs id = some r ∧ (Spec.step t (.update app id obj)).1.objs id = some { r with obj := obj } ∧
-      (∀ j, j ≠ id → (Spec.step t (.update app id obj)).1.objs j = t.objs j) ∧
-      (Spec.step t (.update app id obj)).1.prov = t.prov ∧ (Spec.step t (.update app id obj)).1.cons = t.cons ∧
-      (Spec.step t (.update app id obj)).1.next = t.next := by
-  cases hp : t.prov app with
-  | false => simp [Spec.step, hp] at h
-  | true =>
+/-- **a successful update replaces only the content** (one step): application id, timestamp, location and validity of
+the object stay, every other object, both registries and the identifier counter are unchanged -/
+theorem update_replaces_only_content (P : Spec.Params) (t : Spec.St) (app id : Nat) (obj : JVal)
+    (h : (Spec.step P t (.update app id obj)).2 = .done) :
+    ∃ r, t.objs id = some r ∧ (Spec.step P t (.update app id obj)).1.objs id = some { r with obj := obj } ∧
+      (∀ j, j ≠ id → (Spec.step P t (.update app id obj)).1.objs j = t.objs j) ∧
+      (Spec.step P t (.update app id obj)).1.prov = t.prov ∧ (Spec.step P t (.update app id obj)).1.cons = t.cons ∧
+      (Spec.step P t (.update app id obj)).1.next = t.next := by
+  simp only [Spec.step] at h ⊢
+  split at h
+  · cases h
+  · next hg =>
+    simp only [hg]
     cases hr : t.objs id with
-    | none => simp [Spec.step, hp, hr] at h
+    | none => simp [hr] at h
     | some r =>
-      by_cases hty : objTypeName r.obj = objTypeName obj
+      by_cases hty : Spec.typeOf r.obj = Spec.typeOf obj
       · refine ⟨r, rfl, ?_⟩
-        simp only [Spec.step, hp, hr, hty, Spec.setAt, Bool.not_true, Bool.false_eq_true, if_false, if_true]
+        simp only [hty, Spec.setAt, if_true, Bool.false_eq_true, if_false]
         exact ⟨trivial, fun j hj => by simp [hj], trivial, trivial, trivial⟩
-      · simp [Spec.step, hp, hr, hty] at h
+      · simp [hr, hty] at h
 
 /-- **deleted is never returned**: after a successful delete the identifier holds nothing, whatever follows;
 by `returned_is_stored` no answer can contain it -/
-theorem deleted_never_returned (t : Spec.St) (hinv : Spec.Inv t) (app id : Nat)
-    (h : (Spec.step t (.delete app id)).2 = .done) (ops : List Op) :
-    (Spec.run (Spec.step t (.delete app id)).1 ops).1.objs id = none := by
+theorem deleted_never_returned (P : Spec.Params) (t : Spec.St) (hinv : Spec.Inv t) (app id : Nat)
+    (h : (Spec.step P t (.delete app id)).2 = .done) (ops : List Spec.Op) :
+    (Spec.run P (Spec.step P t (.delete app id)).1 ops).1.objs id = none := by
+  have hex : ∃ r, t.objs id = some r := by
+    simp only [Spec.step] at h
+    split at h
+    · cases h
+    · cases hr : t.objs id with
+      | none => simp [hr] at h
+      | some r => exact ⟨r, rfl⟩
+  obtain ⟨r, hr⟩ := hex
   have hlt : id < t.next := by
     apply Classical.byContradiction
     intro hge
-    have hn := hinv id (by omega)
-    simp only [Spec.step, hn] at h
-    split at h <;> cases h
-  apply none_stays ops
-  · cases hp : t.prov app with
-    | false => simp [Spec.step, hp] at h
-    | true =>
-      cases hr : t.objs id with
-      | none => simp [Spec.step, hp, hr]
-      | some r => simp [Spec.step, hp, hr, Spec.setAt]
-  · exact Nat.lt_of_lt_of_le hlt (spec_step_next_mono t _)
+    rw [hinv id (by omega)] at hr
+    cases hr
+  apply none_stays P ops
+  · simp only [Spec.step] at h ⊢
+    split at h
+    · cases h
+    · next hg => simp [hg, hr, Spec.setAt]
+  · exact Nat.lt_of_lt_of_le hlt (spec_step_next_mono P t _)
 
-/-- **expired is never returned after maintenance has run past its expiry**: a maintenance run leaves no object
-whose validity has lapsed, and an object it removed stays away -/
-theorem expired_never_returned_after_gc (t : Spec.St) (hinv : Spec.Inv t) :
-    (∀ i r, (Spec.step t .maintain).1.objs i = some r → expired (nowIts t.utcMs) r = false) ∧
-    (∀ i r, t.objs i = some r → expired (nowIts t.utcMs) r = true →
-        ∀ ops, (Spec.run (Spec.step t .maintain).1 ops).1.objs i = none) := by
+/-- **expired is never returned after maintenance has run past its expiry**, for every validity (0 s included: see
+`lapsed_validity_zero`): a maintenance pass leaves no object whose validity has lapsed (nor one the area rule
+discards), and an object it removed stays away -/
+theorem expired_never_returned_after_gc (P : Spec.Params) (t : Spec.St) (hinv : Spec.Inv t) :
+    (∀ i r, (Spec.step P t .maintain).1.objs i = some r →
+        Spec.lapsed (Spec.nowIts t.utcMs) r = false ∧ P.drops r.loc = false) ∧
+    (∀ i r, t.objs i = some r → Spec.lapsed (Spec.nowIts t.utcMs) r = true →
+        ∀ ops, (Spec.run P (Spec.step P t .maintain).1 ops).1.objs i = none) := by
   constructor
   · intro i r h
     simp only [Spec.step, Spec.collect] at h
@@ -232,125 +263,426 @@ theorem expired_never_returned_after_gc (t : Spec.St) (hinv : Spec.Inv t) :
       intro hge
       rw [hinv i (by omega)] at hi
       cases hi
-    apply none_stays ops _ i _ (Nat.lt_of_lt_of_le hlt (spec_step_next_mono t _))
-    simp only [Spec.step, Spec.collect, hi, he, if_true]
+    apply none_stays P ops _ i _ (Nat.lt_of_lt_of_le hlt (spec_step_next_mono P t _))
+    simp only [Spec.step, Spec.collect, hi, he, Bool.true_or, if_true]
 
-/-- **unregistered requests are refused without effect** -/
-theorem unregistered_refused_without_effect (t : Spec.St) (app : Nat) :
+/-- the same for the reactive pass inside an accepted add -/
+theorem expired_never_returned_after_reactive_gc (P : Spec.Params) (t : Spec.St) (app : Nat) (ts : Int) (loc : Loc)
+    (obj : JVal) (v : Int) (hp : t.prov app = true) (hg : P.reactive (t.monoMs - t.lastGc) = true) :
+    ∀ i r, (Spec.step P t (.add app ts loc obj v)).1.objs i = some r →
+        Spec.lapsed (Spec.nowIts t.utcMs) r = false ∧ P.drops r.loc = false := by
+  intro i r h
+  simp only [Spec.step, hp, hg, Bool.not_true, Bool.false_eq_true, if_false, if_true, Spec.collect] at h
+  split at h
+  · next r' _ =>
+    split at h
+    · cases h
+    · injection h with h; subst h; simp_all
+  · cases h
+
+/-- **unregistered requests are refused without effect**: adds of unregistered providers and requests of unregistered
+consumers for every value of the parameters; updates / deletes when the machine is gated (the code as it is: C12-KF2,
+`gating_witness`) -/
+theorem unregistered_refused_without_effect (P : Spec.Params) (t : Spec.St) (app : Nat) :
     (t.prov app = false →
-      (∀ ts loc obj v, Spec.step t (.add app ts loc obj v) = (t, .refused)) ∧
-      (∀ id obj, Spec.step t (.update app id obj) = (t, .refused)) ∧
-      (∀ id, Spec.step t (.delete app id) = (t, .refused))) ∧
-    (t.cons app = false → ∀ q : Request, q.app = app → Spec.step t (.request q) = (t, .req (.refused 1))) := by
+      (∀ ts loc obj v, Spec.step P t (.add app ts loc obj v) = (t, .refused 1)) ∧
+      (P.gated = true → (∀ id obj, Spec.step P t (.update app id obj) = (t, .refused 1)) ∧
+                        (∀ id, Spec.step P t (.delete app id) = (t, .refused 1)))) ∧
+    (t.cons app = false → ∀ q : Request, q.app = app → Spec.step P t (.request q) = (t, .req (.refused 1))) := by
   constructor
   · intro hp
-    refine ⟨?_, ?_, ?_⟩ <;> intros <;> simp [Spec.step, hp]
+    refine ⟨?_, fun hg => ⟨?_, ?_⟩⟩ <;> intros <;> simp [Spec.step, *]
   · intro hc q hq
     subst hq
-    simp [Spec.step, hc, requestRefusal]
+    simp [Spec.step, hc, Spec.refusal]
 
-/-- identifiers handed out by the accepted adds of a history -/
-def handedOut : List Spec.Out → List Nat
-  | [] => []
-  | .id n :: t => n :: handedOut t
-  | _ :: t => handedOut t
-
-theorem handedOut_ge (ops : List Op) : ∀ (t : Spec.St), ∀ n ∈ handedOut (Spec.run t ops).2, t.next ≤ n := by
-  induction ops with
-  | nil => intro t n h; simp [Spec.run, handedOut] at h
-  | cons op ops ih =>
-    intro t n h
-    simp only [Spec.run] at h
-    have hmono := spec_step_next_mono t op
-    have hrest : ∀ k ∈ handedOut (Spec.run (Spec.step t op).1 ops).2, t.next ≤ k :=
-      fun k hk => Nat.le_trans hmono (ih _ k hk)
-    cases hop : (Spec.step t op).2 with
-    | id k =>
-      rw [hop] at h
-      simp only [handedOut, List.mem_cons] at h
-      rcases h with h | h
-      · subst h
-        have := (id_out t op n hop).1
-        omega
-      · exact hrest n h
-    | _ => rw [hop] at h; exact hrest n h
-
-/-- **identifiers are never reused**: the identifiers handed out along any history are strictly increasing -/
-theorem ids_never_reused (ops : List Op) : ∀ t : Spec.St, (handedOut (Spec.run t ops).2).Pairwise (· < ·) := by
+/-- **identifiers are never reused**: the identifiers handed out along any history (whatever maintenance passes,
+deletions or expiries empty the store in between) are strictly increasing -/
+theorem ids_never_reused (P : Spec.Params) (ops : List Spec.Op) :
+    ∀ t : Spec.St, (handedOut (Spec.run P t ops).2).Pairwise (· < ·) := by
   induction ops with
   | nil => intro t; simp [Spec.run, handedOut]
   | cons op ops ih =>
     intro t
     simp only [Spec.run]
-    cases hop : (Spec.step t op).2 with
+    cases hop : (Spec.step P t op).2 with
     | id k =>
       simp only [handedOut, List.pairwise_cons]
       refine ⟨?_, ih _⟩
       intro n hn
-      have hge := handedOut_ge ops _ n hn
-      have := id_out t op k hop
+      have hge := handedOut_ge P ops _ n hn
+      have := id_out P t op k hop
       omega
     | _ => simp only [handedOut]; exact ih _
 
 /-- **frame**: an update or delete aimed at one object changes no other object, no registration and not the
-identifier counter; registrations, requests and clock advances change no object at all -/
-theorem frame (t : Spec.St) (op : Op) :
-    (∀ i j, op.targets i = true → j ≠ i → (Spec.step t op).1.objs j = t.objs j) ∧
-    (∀ i, op.targets i = true → (Spec.step t op).1.prov = t.prov ∧ (Spec.step t op).1.cons = t.cons ∧
-        (Spec.step t op).1.next = t.next) ∧
+identifier counter; registrations, requests and clock advances change no object at all; and NO operation other than a
+(de)registration changes any registration -/
+theorem frame (P : Spec.Params) (t : Spec.St) (op : Spec.Op) :
+    (∀ i j, op.targets i = true → j ≠ i → (Spec.step P t op).1.objs j = t.objs j) ∧
+    (∀ i, op.targets i = true → (Spec.step P t op).1.next = t.next) ∧
     ((match op with | .add .. => False | .update .. => False | .delete .. => False | .maintain => False | _ => True) →
-        (Spec.step t op).1.objs = t.objs ∧ (Spec.step t op).1.next = t.next) := by
+        (Spec.step P t op).1.objs = t.objs ∧ (Spec.step P t op).1.next = t.next) ∧
+    ((match op with | .regProvider .. => False | .deregProvider .. => False | .regConsumer .. => False
+                    | .deregConsumer .. => False | _ => True) →
+        (Spec.step P t op).1.prov = t.prov ∧ (Spec.step P t op).1.cons = t.cons) := by
   cases op with
   | update app id obj =>
-    refine ⟨?_, ?_, fun h => h.elim⟩
+    refine ⟨?_, ?_, fun h => h.elim, fun _ => ?_⟩
     · intro i j hi hj
-      simp only [Op.targets, beq_iff_eq] at hi; subst hi
+      simp only [Spec.Op.targets, beq_iff_eq] at hi; subst hi
       simp only [Spec.step]; repeat' split
       all_goals (first | rfl | simp [Spec.setAt, hj])
     · intro i _
       simp only [Spec.step]; repeat' split
-      all_goals exact ⟨rfl, rfl, rfl⟩
+      all_goals rfl
+    · simp only [Spec.step]; repeat' split
+      all_goals exact ⟨rfl, rfl⟩
   | delete app id =>
-    refine ⟨?_, ?_, fun h => h.elim⟩
+    refine ⟨?_, ?_, fun h => h.elim, fun _ => ?_⟩
     · intro i j hi hj
-      simp only [Op.targets, beq_iff_eq] at hi; subst hi
+      simp only [Spec.Op.targets, beq_iff_eq] at hi; subst hi
       simp only [Spec.step]; repeat' split
       all_goals (first | rfl | simp [Spec.setAt, hj])
     · intro i _
       simp only [Spec.step]; repeat' split
-      all_goals exact ⟨rfl, rfl, rfl⟩
-  | add app ts loc obj validity => exact ⟨fun i j h => by simp [Op.targets] at h, fun i h => by simp [Op.targets] at h, fun h => h.elim⟩
-  | maintain => exact ⟨fun i j h => by simp [Op.targets] at h, fun i h => by simp [Op.targets] at h, fun h => h.elim⟩
+      all_goals rfl
+    · simp only [Spec.step]; repeat' split
+      all_goals exact ⟨rfl, rfl⟩
+  | add app ts loc obj validity =>
+    refine ⟨fun i j h => by simp [Spec.Op.targets] at h, fun i h => by simp [Spec.Op.targets] at h, fun h => h.elim, fun _ => ?_⟩
+    simp only [Spec.step]; repeat' split
+    all_goals exact ⟨rfl, rfl⟩
+  | maintain =>
+    exact ⟨fun i j h => by simp [Spec.Op.targets] at h, fun i h => by simp [Spec.Op.targets] at h, fun h => h.elim,
+      fun _ => ⟨rfl, rfl⟩⟩
   | regProvider app perms =>
-    refine ⟨fun i j h => by simp [Op.targets] at h, fun i h => by simp [Op.targets] at h, fun _ => ?_⟩
+    refine ⟨fun i j h => by simp [Spec.Op.targets] at h, fun i h => by simp [Spec.Op.targets] at h, fun _ => ?_, fun h => h.elim⟩
     simp only [Spec.step]; split <;> exact ⟨rfl, rfl⟩
   | deregProvider app =>
-    refine ⟨fun i j h => by simp [Op.targets] at h, fun i h => by simp [Op.targets] at h, fun _ => ?_⟩
+    refine ⟨fun i j h => by simp [Spec.Op.targets] at h, fun i h => by simp [Spec.Op.targets] at h, fun _ => ?_, fun h => h.elim⟩
     simp only [Spec.step]; split <;> exact ⟨rfl, rfl⟩
   | regConsumer app perms =>
-    refine ⟨fun i j h => by simp [Op.targets] at h, fun i h => by simp [Op.targets] at h, fun _ => ?_⟩
+    refine ⟨fun i j h => by simp [Spec.Op.targets] at h, fun i h => by simp [Spec.Op.targets] at h, fun _ => ?_, fun h => h.elim⟩
     simp only [Spec.step]; split <;> exact ⟨rfl, rfl⟩
   | deregConsumer app =>
-    refine ⟨fun i j h => by simp [Op.targets] at h, fun i h => by simp [Op.targets] at h, fun _ => ?_⟩
+    refine ⟨fun i j h => by simp [Spec.Op.targets] at h, fun i h => by simp [Spec.Op.targets] at h, fun _ => ?_, fun h => h.elim⟩
     simp only [Spec.step]; split <;> exact ⟨rfl, rfl⟩
-  | request q => exact ⟨fun i j h => by simp [Op.targets] at h, fun i h => by simp [Op.targets] at h, fun _ => ⟨rfl, rfl⟩⟩
-  | advance ms => exact ⟨fun i j h => by simp [Op.targets] at h, fun i h => by simp [Op.targets] at h, fun _ => ⟨rfl, rfl⟩⟩
+  | request q =>
+    exact ⟨fun i j h => by simp [Spec.Op.targets] at h, fun i h => by simp [Spec.Op.targets] at h, fun _ => ⟨rfl, rfl⟩,
+      fun _ => ⟨rfl, rfl⟩⟩
+  | advance ms =>
+    exact ⟨fun i j h => by simp [Spec.Op.targets] at h, fun i h => by simp [Spec.Op.targets] at h, fun _ => ⟨rfl, rfl⟩,
+      fun _ => ⟨rfl, rfl⟩⟩
 
 /-- frame for registrations: registering / deregistering one application changes no other application's
 registration and nothing in the other registry -/
-theorem frame_registrations (t : Spec.St) (app a : Nat) (perms : List Nat) (ha : a ≠ app) :
-    (Spec.step t (.regProvider app perms)).1.prov a = t.prov a ∧ (Spec.step t (.regProvider app perms)).1.cons = t.cons ∧
-    (Spec.step t (.deregProvider app)).1.prov a = t.prov a ∧ (Spec.step t (.deregProvider app)).1.cons = t.cons ∧
-    (Spec.step t (.regConsumer app perms)).1.cons a = t.cons a ∧ (Spec.step t (.regConsumer app perms)).1.prov = t.prov ∧
-    (Spec.step t (.deregConsumer app)).1.cons a = t.cons a ∧ (Spec.step t (.deregConsumer app)).1.prov = t.prov := by
+theorem frame_registrations (P : Spec.Params) (t : Spec.St) (app a : Nat) (perms : List Nat) (ha : a ≠ app) :
+    (Spec.step P t (.regProvider app perms)).1.prov a = t.prov a ∧ (Spec.step P t (.regProvider app perms)).1.cons = t.cons ∧
+    (Spec.step P t (.deregProvider app)).1.prov a = t.prov a ∧ (Spec.step P t (.deregProvider app)).1.cons = t.cons ∧
+    (Spec.step P t (.regConsumer app perms)).1.cons a = t.cons a ∧ (Spec.step P t (.regConsumer app perms)).1.prov = t.prov ∧
+    (Spec.step P t (.deregConsumer app)).1.cons a = t.cons a ∧ (Spec.step P t (.deregConsumer app)).1.prov = t.prov := by
   simp only [Spec.step]
   refine ⟨?_, ?_, ?_, ?_, ?_, ?_, ?_, ?_⟩ <;> split <;> simp [Spec.setAt, ha]
 
-/-- non-vacuity: a concrete history in which an object is added, survives an unrelated delete and a maintenance
-run, and is returned -/
-example : (refAnswers 1700000000000 1000000
-    [.regProvider 2 [2], .regConsumer 2 [2], .add 2 627084805000 farAway camObj 1000, .add 2 627084805000 atLdm camObj 0,
-     .delete 2 1, .advance 2000, .maintain, .request (unfiltered 2 [2])]).getLast?.bind listed = some [camRec farAway] := by
+
+
+/-! ## 3. The clauses carried over to the implementation model
+
+`s` ranges over the states of the implementation model (`Store.lean`: row list, id counter, registry lists) reachable
+by ANY history from ANY start clocks under ANY variant `cfg`.  The statements speak about the implementation's own
+`step` / `run`, its answers, its rows (`lookup`), its registries and its identifier counter `db.next`: the quantities
+the harness compares with the real facility after every operation (answer line + `state` line). -/
+
+/-- **identifiers are never reused (implementation)**: along every history, for every variant, the identifiers the
+implementation hands out are strictly increasing -/
+theorem impl_ids_never_reused (cfg : Cfg) (u m : Int) (ops : List Op) :
+    (handedOut (answers cfg u m ops)).Pairwise (· < ·) := by
+  rw [ldm_refines_map]
+  exact ids_never_reused _ _ _
+
+/-- … and they come from the counter `db.next`, which no operation - in particular no maintenance pass, even one that
+empties the store - ever decreases or resets -/
+theorem impl_id_allocator (cfg : Cfg) (s : St) (op : Op) :
+    s.db.next ≤ (step cfg s op).1.db.next ∧
+    (∀ app ts loc obj v (n : Int), op = .add app ts loc obj v → (step cfg s op).2 = .code n → 0 ≤ n →
+        n = s.db.next ∧ (step cfg s op).1.db.next = s.db.next + 1) ∧
+    (op = .maintain → (step cfg s op).1.db.next = s.db.next) := by
+  refine ⟨?_, ?_, ?_⟩
+  · cases op <;> simp only [step] <;> (repeat' split) <;> (try simp only []) <;> omega
+  · intro app ts loc obj v n hop ho hn
+    subst hop
+    cases hp : s.providers.contains app with
+    | false =>
+      simp only [step, hp, Bool.not_false, if_true] at ho
+      injection ho with ho; omega
+    | true =>
+      by_cases hg : s.monoMs - s.lastGc ≥ trashIntervalMs
+      · simp only [step, hp, hg, Bool.not_true, Bool.false_eq_true, if_false, if_true] at ho ⊢
+        injection ho with ho; exact ⟨ho.symm, trivial⟩
+      · simp only [step, hp, hg, Bool.not_true, Bool.false_eq_true, if_false] at ho ⊢
+        injection ho with ho; exact ⟨ho.symm, trivial⟩
+  · intro hop; subst hop; rfl
+
+/-- **added is returned until deleted or expired; a successful update replaces only the content (implementation,
+end to end)**: after ANY history `pre`, an add answered with identifier `i` at a location the variant's area rule
+keeps, followed by ANY history `mid`; if following the implementation's ANSWERS to `mid` (`Spec.follow`: successful
+deletes of `i` remove, successful updates of `i` replace the content, everything else - refused updates / deletes of
+`i` included - is ignored) leaves `r'`, and the validity has not lapsed at the time of the request, then every
+unfiltered, unordered request for its type that is answered at all contains `r'`, and `r'` carries the application
+id, timestamp, location and validity of the add. -/
+theorem impl_added_is_returned (cfg : Cfg) (u m : Int) (pre mid : List Op)
+    (app : Nat) (ts : Int) (loc : Loc) (obj : JVal) (v : Int) (i : Nat) (q : Request) :
+    let r : Record := { appId := app, timestamp := ts, loc := loc, obj := obj, validity := v }
+    let s0 := (run cfg (St.init u m) pre).1
+    let s1 := (step cfg s0 (.add app ts loc obj v)).1
+    let s2 := (run cfg s1 mid).1
+    (step cfg s0 (.add app ts loc obj v)).2 = .code i →
+    areaDeletes cfg.areaFixed cfg.area loc = false →
+    expired (nowIts s2.utcMs) r = false →
+    ∀ r', Spec.follow i (some r) (mid.map toSpec) (List.zipWith absOut mid (run cfg s1 mid).2) = some r' →
+    q.filter = none → q.order = none → typeSelected q.types r' = true →
+    ∀ rs, (step cfg s2 (.request q)).2 = .req (.ok rs) →
+      r' ∈ rs ∧ r'.appId = app ∧ r'.timestamp = ts ∧ r'.loc = loc ∧ r'.validity = v := by
+  intro r s0 s1 s2 hid hk hne r' hfo hf ho hty rs hans
+  obtain ⟨hr0, _⟩ := run_refines cfg pre _ _ (rel_init u m)
+  generalize ht0 : (Spec.run (specOf cfg) (Spec.St.init u m) (pre.map toSpec)).1 = t0 at hr0
+  obtain ⟨hr1, ho1⟩ := step_refines cfg s0 t0 (.add app ts loc obj v) hr0
+  rw [hid] at ho1
+  simp only [absOut, toSpec] at ho1
+  have hi0 : (0 : Int) ≤ (i : Int) := Int.natCast_nonneg i
+  rw [if_neg (by omega)] at ho1
+  simp only [Int.toNat_natCast] at ho1
+  obtain ⟨hin, hnext1⟩ := id_out _ t0 _ i ho1.symm
+  obtain ⟨hr2, ho2⟩ := run_refines cfg mid s1 _ hr1
+  -- the object is stored by the add
+  have hutc01 : t0.utcMs ≤ s2.utcMs := by
+    have a := spec_step_utc_mono (specOf cfg) t0 (toSpec (.add app ts loc obj v))
+    have b := spec_run_utc_mono (specOf cfg) (mid.map toSpec) (Spec.step (specOf cfg) t0 (toSpec (.add app ts loc obj v))).1
+    rw [← hr2.utc]
+    exact Int.le_trans a b
+  have hne2 : Spec.lapsed (Spec.nowIts s2.utcMs) r = false := by rw [agree_lapsed, agree_nowIts]; exact hne
+  have hne0 : Spec.lapsed (Spec.nowIts t0.utcMs) r = false := by
+    cases hx : Spec.lapsed (Spec.nowIts t0.utcMs) r with
+    | false => rfl
+    | true => rw [lapsed_mono _ _ r (spec_nowIts_mono _ _ hutc01) hx] at hne2; cases hne2
+  have hprov : t0.prov app = true := by
+    cases hp : t0.prov app with
+    | true => rfl
+    | false => simp [Spec.step, hp] at ho1
+  have hst := add_stores (specOf cfg) t0 app ts loc obj v hprov
+  simp only [toSpec] at hst hr1 hr2 ho2 hnext1
+  have hstored : (Spec.step (specOf cfg) t0 (.add app ts loc obj v)).1.objs i = some r := by
+    rw [hin]
+    rcases hst.2.2 with h | h | h
+    · exact h
+    · rw [hne0] at h; cases h
+    · simp only [specOf] at h; rw [hk] at h; cases h
+  -- follow it through `mid`
+  have hlt1 : i < (Spec.step (specOf cfg) t0 (.add app ts loc obj v)).1.next := by rw [hnext1]; omega
+  have hfol := run_follows (specOf cfg) (mid.map toSpec) (Spec.step (specOf cfg) t0 (.add app ts loc obj v)).1 i r
+    hstored hlt1 (by simp only [specOf]; exact hk) (by rw [hr2.utc]; exact hne2)
+  rw [← ho2, hfo] at hfol
+  -- the request
+  obtain ⟨_, ho3⟩ := step_refines cfg s2 _ (.request q) hr2
+  rw [hans] at ho3
+  simp only [absOut, toSpec] at ho3
+  have hmem := (follow_keeps_meta i _ _ r r' hfo)
+  refine ⟨?_, hmem.1, hmem.2.1, hmem.2.2.1, hmem.2.2.2⟩
+  simp only [Spec.step, Spec.answer, hf, ho] at ho3
+  split at ho3
+  · cases ho3
+  · injection ho3 with ho3; injection ho3 with ho3
+    rw [ho3]
+    simp only [List.mem_filter, agree_wanted, hty, and_true]
+    exact (mem_listing _ r').mpr ⟨i, Nat.lt_of_lt_of_le hlt1 (spec_run_next_mono _ _ _), hfol⟩
+
+/-- `impl_added_is_returned` stated on the list of answers of ONE history `pre ++ add :: (mid ++ [request])` -/
+theorem impl_added_is_returned_answers (cfg : Cfg) (u m : Int) (pre mid : List Op)
+    (app : Nat) (ts : Int) (loc : Loc) (obj : JVal) (v : Int) (i : Nat) (q : Request)
+    (aspre asmid : List Spec.Out) (rs : List Record)
+    (hlp : aspre.length = pre.length) (hlm : asmid.length = mid.length)
+    (hA : answers cfg u m (pre ++ .add app ts loc obj v :: (mid ++ [.request q]))
+            = aspre ++ .id i :: (asmid ++ [.req (.ok rs)]))
+    (hk : areaDeletes cfg.areaFixed cfg.area loc = false)
+    (hne : expired (nowIts (run cfg (St.init u m) (pre ++ .add app ts loc obj v :: mid)).1.utcMs)
+            { appId := app, timestamp := ts, loc := loc, obj := obj, validity := v } = false)
+    (r' : Record)
+    (hfo : Spec.follow i (some { appId := app, timestamp := ts, loc := loc, obj := obj, validity := v })
+            (mid.map toSpec) asmid = some r')
+    (hf : q.filter = none) (ho : q.order = none) (hty : typeSelected q.types r' = true) :
+    r' ∈ rs ∧ r'.appId = app ∧ r'.timestamp = ts ∧ r'.loc = loc ∧ r'.validity = v := by
+  -- split the run
+  have e1 : pre ++ Op.add app ts loc obj v :: (mid ++ [Op.request q])
+      = pre ++ ([Op.add app ts loc obj v] ++ (mid ++ [Op.request q])) := by simp
+  unfold answers at hA
+  rw [e1, run_append, run_append, run_append] at hA
+  simp only at hA
+  rw [List.zipWith_append (by rw [run_length])] at hA
+  obtain ⟨_, hA2⟩ := List.append_inj hA (by simp [run_length, hlp])
+  rw [List.zipWith_append (by rw [run_length])] at hA2
+  simp only [run, List.zipWith_cons_cons, List.zipWith_nil_right, List.singleton_append, List.cons.injEq] at hA2
+  obtain ⟨hid, hA3⟩ := hA2
+  rw [List.zipWith_append (by rw [run_length])] at hA3
+  obtain ⟨hmid, hreq⟩ := List.append_inj hA3 (by simp [run_length, hlm])
+  simp only [List.zipWith_cons_cons, List.zipWith_nil_right, List.cons.injEq, and_true] at hreq
+  have hid' := absOut_add_id _ _ _ _ _ _ _ hid
+  have hreq' := absOut_request_ok _ _ _ hreq
+  have e2 : pre ++ Op.add app ts loc obj v :: mid = pre ++ ([Op.add app ts loc obj v] ++ mid) := by simp
+  rw [e2, run_append, run_append] at hne
+  simp only [run] at hne
+  exact impl_added_is_returned cfg u m pre mid app ts loc obj v i q hid' hk hne r' (by rw [hmid]; exact hfo) hf ho hty rs hreq'
+
+/-- **nothing else is returned (implementation)**: every record in an answer to an unfiltered, unordered request is
+of a requested type and stored in the rows under some identifier already handed out -/
+theorem impl_returned_is_stored (cfg : Cfg) (s : St) (hs : Reach cfg s) (q : Request) (hf : q.filter = none)
+    (ho : q.order = none) (rs : List Record) (h : (step cfg s (.request q)).2 = .req (.ok rs)) (r : Record) (hr : r ∈ rs) :
+    typeSelected q.types r = true ∧ ∃ i, i < s.db.next ∧ lookup i s.db.rows = some r := by
+  obtain ⟨t, hrel, _⟩ := reach_rel cfg s hs
+  obtain ⟨_, ho3⟩ := step_refines cfg s t (.request q) hrel
+  rw [h] at ho3
+  simp only [absOut, toSpec] at ho3
+  obtain ⟨h1, i, h2, h3⟩ := returned_is_stored (specOf cfg) t q hf ho rs ho3.symm r hr
+  exact ⟨by rw [← agree_wanted]; exact h1, i, by rw [← hrel.next]; exact h2, by rw [← hrel.objs]; exact h3⟩
+
+/-- **deleted is never returned (implementation)**: after a delete answered SUCCEED the rows hold nothing under that
+identifier, whatever history follows -/
+theorem impl_deleted_never_returned (cfg : Cfg) (s : St) (hs : Reach cfg s) (app id : Nat)
+    (h : (step cfg s (.delete app id)).2 = .code 0) (post : List Op) :
+    lookup id (run cfg (step cfg s (.delete app id)).1 post).1.db.rows = none := by
+  obtain ⟨t, hrel, hinv⟩ := reach_rel cfg s hs
+  obtain ⟨hr1, ho1⟩ := step_refines cfg s t (.delete app id) hrel
+  rw [h] at ho1
+  simp only [absOut, toSpec, if_true] at ho1 hr1
+  obtain ⟨hr2, _⟩ := run_refines cfg post _ _ hr1
+  rw [← hr2.objs]
+  exact deleted_never_returned (specOf cfg) t hinv app id ho1.symm _
+
+/-- **expired is never returned after maintenance has run past its expiry (implementation)**: after an explicit
+maintenance pass, and after the reactive pass inside an add, no row is expired (validity 0 included) nor inside the
+region the variant's area rule discards; and a row that was expired at the pass is gone for every later history -/
+theorem impl_expired_never_returned_after_gc (cfg : Cfg) (s : St) (hs : Reach cfg s) :
+    (∀ i r, lookup i (step cfg s .maintain).1.db.rows = some r →
+        expired (nowIts s.utcMs) r = false ∧ areaDeletes cfg.areaFixed cfg.area r.loc = false) ∧
+    (∀ i r, lookup i s.db.rows = some r → expired (nowIts s.utcMs) r = true →
+        ∀ post, lookup i (run cfg (step cfg s .maintain).1 post).1.db.rows = none) ∧
+    (∀ app ts loc obj v, s.providers.contains app = true → s.monoMs - s.lastGc ≥ trashIntervalMs →
+        ∀ i r, lookup i (step cfg s (.add app ts loc obj v)).1.db.rows = some r →
+          expired (nowIts s.utcMs) r = false ∧ areaDeletes cfg.areaFixed cfg.area r.loc = false) := by
+  obtain ⟨t, hrel, hinv⟩ := reach_rel cfg s hs
+  refine ⟨?_, ?_, ?_⟩
+  · intro i r h
+    obtain ⟨hr1, _⟩ := step_refines cfg s t .maintain hrel
+    rw [← hr1.objs] at h
+    have := (expired_never_returned_after_gc (specOf cfg) t hinv).1 i r h
+    rw [agree_lapsed, agree_nowIts, hrel.utc] at this
+    exact this
+  · intro i r hi he post
+    obtain ⟨hr1, _⟩ := step_refines cfg s t .maintain hrel
+    obtain ⟨hr2, _⟩ := run_refines cfg post _ _ hr1
+    rw [← hr2.objs]
+    apply (expired_never_returned_after_gc (specOf cfg) t hinv).2 i r (by rw [hrel.objs]; exact hi)
+    rw [agree_lapsed, agree_nowIts, hrel.utc]; exact he
+  · intro app ts loc obj v hp hg i r h
+    obtain ⟨hr1, _⟩ := step_refines cfg s t (.add app ts loc obj v) hrel
+    rw [← hr1.objs] at h
+    have := expired_never_returned_after_reactive_gc (specOf cfg) t app ts loc obj v (by rw [hrel.prov]; exact hp)
+      (by simp only [specOf, hrel.mono, hrel.gc, decide_eq_true_eq]; exact hg) i r h
+    rw [agree_lapsed, agree_nowIts, hrel.utc] at this
+    exact this
+
+/-- **unregistered requests are refused without effect (implementation)**: ANY state; adds and requests for every
+variant, updates / deletes for the gated variant (the code as it is: C12-KF2, `gating_witness`) -/
+theorem impl_unregistered_refused_without_effect (cfg : Cfg) (s : St) (app : Nat) :
+    (s.providers.contains app = false →
+      (∀ ts loc obj v, step cfg s (.add app ts loc obj v) = (s, .code (-1))) ∧
+      (cfg.gated = true → (∀ id obj, step cfg s (.update app id obj) = (s, .code 1)) ∧
+                          (∀ id, step cfg s (.delete app id) = (s, .code 1)))) ∧
+    (s.consumers.contains app = false → ∀ q : Request, q.app = app → step cfg s (.request q) = (s, .req (.refused 1))) := by
+  constructor
+  · intro hp
+    refine ⟨?_, fun hg => ⟨?_, ?_⟩⟩
+    · intros; simp only [step, hp, Bool.not_false, if_true]
+    · intros; simp only [step, hp, hg, Bool.not_false, Bool.and_self, if_true]
+    · intros; simp only [step, hp, hg, Bool.not_false, Bool.and_self, if_true]
+  · intro hc q hq
+    subst hq
+    simp only [step, if4Request, hc, requestRefusal, Bool.not_false, if_true]
+
+/-- **frame (implementation)**: an update or delete aimed at one object changes no other row; and NO operation other
+than a (de)registration changes either registry (ANY state - in particular no delete of an object whose identifier
+happens to equal a registered ITS-AID), while a (de)registration changes no row, not the counter, nothing in the other
+registry and no other application's entry -/
+theorem impl_frame (cfg : Cfg) (s : St) (hs : Reach cfg s) (op : Op) :
+    (∀ i j, (toSpec op).targets i = true → j ≠ i → lookup j (step cfg s op).1.db.rows = lookup j s.db.rows) ∧
+    ((match op with | .regProvider .. => False | .deregProvider .. => False | .regConsumer .. => False
+                    | .deregConsumer .. => False | _ => True) →
+        (step cfg s op).1.providers = s.providers ∧ (step cfg s op).1.consumers = s.consumers) ∧
+    ((match op with | .regProvider .. => True | .deregProvider .. => True | .regConsumer .. => True
+                    | .deregConsumer .. => True | .request _ => True | .advance _ => True | _ => False) →
+        (step cfg s op).1.db = s.db) := by
+  obtain ⟨t, hrel, _⟩ := reach_rel cfg s hs
+  refine ⟨?_, ?_, ?_⟩
+  · intro i j hi hj
+    obtain ⟨hr1, _⟩ := step_refines cfg s t op hrel
+    rw [← hr1.objs, ← hrel.objs]
+    exact (frame (specOf cfg) t (toSpec op)).1 i j hi hj
+  · intro h
+    cases op <;> simp only [step] at h ⊢ <;> (try exact h.elim) <;> (repeat' split) <;>
+      (first | exact ⟨rfl, rfl⟩ | trivial | simp)
+  · intro h
+    cases op <;> simp only [step] at h ⊢ <;> (try exact h.elim) <;> (repeat' split) <;> (first | rfl | trivial | simp)
+
+theorem impl_frame_registrations (cfg : Cfg) (s : St) (app a : Nat) (perms : List Nat) (ha : a ≠ app) :
+    (step cfg s (.regProvider app perms)).1.providers.contains a = s.providers.contains a ∧
+    (step cfg s (.regProvider app perms)).1.consumers = s.consumers ∧
+    (step cfg s (.deregProvider app)).1.providers.contains a = s.providers.contains a ∧
+    (step cfg s (.deregProvider app)).1.consumers = s.consumers ∧
+    (step cfg s (.regConsumer app perms)).1.consumers.contains a = s.consumers.contains a ∧
+    (step cfg s (.regConsumer app perms)).1.providers = s.providers ∧
+    (step cfg s (.deregConsumer app)).1.consumers.contains a = s.consumers.contains a ∧
+    (step cfg s (.deregConsumer app)).1.providers = s.providers := by
+  simp only [step]
+  refine ⟨?_, ?_, ?_, ?_, ?_, ?_, ?_, ?_⟩ <;> split <;>
+    (first | rfl | (rw [contains_setAdd]; simp [ha]) | (rw [contains_setDiscard]; simp [ha]))
+
+/-! ### non-vacuity: the hypotheses of the implications above are satisfiable by the code as it is, with an object
+INSIDE the relevance distance of the area of maintenance -/
+
+def outCode : Out → Option Int
+  | .code n => some n
+  | _ => none
+def outListed : Out → Option (List Record)
+  | .req (.ok rs) => some rs
+  | _ => none
+
+def denmObj : JVal := .dict (.cons "denm" (.dict .nil) .nil)
+def hPre : List Op := [.regProvider 2 [2], .regProvider 16 [16], .regConsumer 2 [2, 16], .add 16 627084805000 farAway camObj 0]
+def hMid : List Op :=
+  [.update 2 1 camObj2, .update 2 1 denmObj, .delete 2 0, .delete 2 7, .advance 3000, .maintain,
+   .add 2 627084808000 atLdm camObj 5]
+
+/-- a history of the code as it is: an object added INSIDE the relevance distance (kept by `asIs`), updated, a refused update of it
+(type mismatch), other objects deleted / expired (validity 0) / area-collected (C12-KF1), a maintenance pass: the request
+returns it with the updated content -/
+example :
+    let s0 := (run cfgAsIs (St.init 1700000000000 1000000) hPre).1
+    let s1 := (step cfgAsIs s0 (.add 2 627084805000 nearKept camObj 1000)).1
+    let s2 := (run cfgAsIs s1 hMid).1
+    outCode (step cfgAsIs s0 (.add 2 627084805000 nearKept camObj 1000)).2 = some 1
+    ∧ areaDeletes cfgAsIs.areaFixed cfgAsIs.area nearKept = false
+    ∧ expired (nowIts s2.utcMs) (camRec nearKept) = false
+    ∧ Spec.follow 1 (some (camRec nearKept)) (hMid.map toSpec) (List.zipWith absOut hMid (run cfgAsIs s1 hMid).2)
+        = some { camRec nearKept with obj := camObj2 }
+    ∧ outListed (step cfgAsIs s2 (.request (unfiltered 2 [2]))).2 = some [{ camRec nearKept with obj := camObj2 }] := by
+  decide
+
+/-- non-vacuity on the reference side, parameters `intended`: objects inside the area, expiry of a validity-0 object,
+an unrelated delete, a maintenance pass -/
+example : (refAnswers (intended cfgAsIs.area) 1700000000000 1000000
+    [.regProvider 2 [2], .regConsumer 2 [2], .add 2 627084805000 atLdm camObj 1000, .add 2 627084805000 nearKept camObj 0,
+     .add 2 627084805000 farAway camObj 1000, .delete 2 7, .advance 2000, .maintain, .request (unfiltered 2 [2])]).getLast?.bind listed
+      = some [camRec atLdm] := by
   decide
 
 end Props.C12
